@@ -7,7 +7,8 @@ Mirrors:
   core/ports.py                 BasePort.attr_set_expression (588-620)     -> assign / clear
   core/ports.py                 load (registers, then loads one by one), BasePort.remove, enable / disable
                                                                            -> addPort / removePort / setEnabled / reload
-  core/api/funcs/ports.py       put_ports (restore a backup)                -> restoreEntry / restoreLoop / restore
+  core/api/funcs/ports.py       put_ports (restore a backup)                -> restoreEntry / restoreLoop / restore /
+                                                                              remaining / restoreOver (driver ports remain)
   core/api/funcs/ports.py       patch_port / post_ports / delete_port      -> step (order of the checks: port lookup, parse,
                                                                               loop check, install)
 
@@ -104,6 +105,7 @@ inductive Outcome
   | parseError     -- 400 invalid-field, reason ≠ circular-dependency
   | circular       -- 400 invalid-field, reason circular-dependency
   | fuel           -- model artefact, unreachable
+  | notRemovable   -- 400 port-not-removable (DELETE of a port that is not a virtual port)
   deriving DecidableEq, Repr
 
 /-- `PATCH /ports/{id} {"expression": <non-empty text>}`: port lookup (404), `parse` (raises ⇒ refused), `check_loops`
@@ -195,9 +197,22 @@ def restoreLoop (h : Hub) : List Entry → Hub × Outcome
     | (h', .ok) => restoreLoop h' rest
     | (h', o) => (h', o)
 
-/-- `PUT /ports`: every local virtual port is removed (with its persisted data), then the entries are restored in
-order. (All ports of the model are local virtual ports.) -/
+/-- `PUT /ports` on a hub whose ports are all local virtual ports: every one of them is removed (with its persisted
+data), then the entries are restored in order. (The general case, with driver ports that remain, is `restoreOver`.) -/
 def restore (_h : Hub) (entries : List Entry) : Hub × Outcome := restoreLoop Hub.empty entries
+
+/-- What is left of the hub when `put_ports` starts applying the entries: the virtual ports are removed; every port
+that remains (`keep`: the ids of the non-virtual, driver-supplied ports) goes through `port.reset()` (enabled flag
+untouched) and `set_attr('expression', '')` — its expression belongs to the configuration being replaced and is
+cleared, whether or not the backup supplies a new one. -/
+def remaining (keep : List String) (h : Hub) : Hub :=
+  ⟨(h.ports.filter fun p => keep.contains p.id).map fun p => { p with expr := none }⟩
+
+/-- `PUT /ports` in general: the ports that remain are blanked first, then the entries are applied in document order,
+each expression through the checked assignment; an entry naming a port that remains re-uses it (`addPort` answers
+duplicate-port and leaves the hub alone). -/
+def restoreOver (keep : List String) (h : Hub) (entries : List Entry) : Hub × Outcome :=
+  restoreLoop (remaining keep h) entries
 
 inductive Op
   | assign (id : String) (parsed : Option Expr)
@@ -231,6 +246,7 @@ other half of a cycle: it must be — and is — checked again when it is loaded
 structure Sys where
   hub : Hub := Hub.empty
   stash : List PortEntry := []       -- persisted records of the ports that are not registered, newest first
+  statics : List String := []        -- ids of the non-virtual (driver) ports: DELETE refuses them, PUT /ports keeps them
 
 def Sys.record (s : Sys) (id : String) : Option PortEntry := s.stash.find? fun p => p.id == id
 def Sys.dropRecord (s : Sys) (id : String) : List PortEntry := s.stash.filter fun p => !(p.id == id)
@@ -243,6 +259,7 @@ inductive SOp
   | hub (op : Op)
   | unload (id : String)      -- save, then remove(persisted_data=False)
   | load (id : String)        -- core.ports.load for an absent port that has a persisted record
+  | addStatic (id : String)   -- core.ports.load of a driver (non-virtual) port, as the hub does at start-up
 
 /-- `POST /ports`: when a persisted record exists under that id it is loaded (and the port is then enabled). -/
 def sAdd (s : Sys) (id : String) : Sys × Outcome :=
@@ -251,12 +268,12 @@ def sAdd (s : Sys) (id : String) : Sys × Outcome :=
   | none =>
     match s.record id with
     | none => ({ s with hub := (addPort s.hub id).1 }, .ok)
-    | some r => ({ hub := loadRecord s.hub r true, stash := s.dropRecord id }, .ok)
+    | some r => ({ s with hub := loadRecord s.hub r true, stash := s.dropRecord id }, .ok)
 
 def sUnload (s : Sys) (id : String) : Sys × Outcome :=
   match s.hub.get id with
   | none => (s, .noSuchPort)
-  | some p => ({ hub := (removePort s.hub id).1, stash := p :: s.dropRecord id }, .ok)
+  | some p => ({ s with hub := (removePort s.hub id).1, stash := p :: s.dropRecord id }, .ok)
 
 def sLoad (s : Sys) (id : String) : Sys × Outcome :=
   match s.hub.get id with
@@ -264,20 +281,38 @@ def sLoad (s : Sys) (id : String) : Sys × Outcome :=
   | none =>
     match s.record id with
     | none => (s, .noSuchPort)
-    | some r => ({ hub := loadRecord s.hub r r.enabled, stash := s.dropRecord id }, .ok)
+    | some r => ({ s with hub := loadRecord s.hub r r.enabled, stash := s.dropRecord id }, .ok)
+
+/-- `core.ports.load([{driver: <a Port subclass>, …}])`: a driver port is registered (disabled, without expression — or
+with what its persisted record says, when one is kept) and remembered as non-virtual. -/
+def sAddStatic (s : Sys) (id : String) : Sys × Outcome :=
+  match s.hub.get id with
+  | some _ => (s, .duplicatePort)
+  | none =>
+    let statics := if s.statics.contains id then s.statics else s.statics ++ [id]
+    match s.record id with
+    | none => ({ s with hub := register s.hub id false, statics := statics }, .ok)
+    | some r => ({ hub := loadRecord s.hub r r.enabled, stash := s.dropRecord id, statics := statics }, .ok)
+
+/-- `DELETE /ports/{id}`: 404 for an unknown id, 400 port-not-removable for a port that is not virtual. -/
+def sRemove (s : Sys) (id : String) : Sys × Outcome :=
+  match s.hub.get id with
+  | none => (s, .noSuchPort)
+  | some _ => if s.statics.contains id then (s, .notRemovable) else ({ s with hub := (removePort s.hub id).1 }, .ok)
 
 def sstep (s : Sys) : SOp → Sys × Outcome
   | .hub (.addPort id) => sAdd s id
   | .hub .reload =>                           -- restart: registered ports first (registration order), then the absent ones
-    ({ hub := reload ⟨s.hub.ports ++ s.stash⟩, stash := [] }, .ok)
+    ({ s with hub := reload ⟨s.hub.ports ++ s.stash⟩, stash := [] }, .ok)
   | .hub (.restore entries) =>                -- PUT /ports clears every persisted port record (core.ports.reset)
-    ({ hub := (restore s.hub entries).1, stash := [] }, (restore s.hub entries).2)
+    ({ s with hub := (restoreOver s.statics s.hub entries).1, stash := [] }, (restoreOver s.statics s.hub entries).2)
   | .hub (.assign id parsed) => ({ s with hub := (assign s.hub id parsed).1 }, (assign s.hub id parsed).2)
   | .hub (.clear id) => ({ s with hub := (clear s.hub id).1 }, (clear s.hub id).2)
-  | .hub (.removePort id) => ({ s with hub := (removePort s.hub id).1 }, (removePort s.hub id).2)
+  | .hub (.removePort id) => sRemove s id
   | .hub (.setEnabled id v) => ({ s with hub := (setEnabled s.hub id v).1 }, (setEnabled s.hub id v).2)
   | .unload id => sUnload s id
   | .load id => sLoad s id
+  | .addStatic id => sAddStatic s id
 
 def srun (s : Sys) (ops : List SOp) : Sys := ops.foldl (fun acc op => (sstep acc op).1) s
 
